@@ -1,8 +1,15 @@
 #!/bin/sh
-# Run the repository's baseline suite (guard off) and compare with BASELINE.json stable_pass.
-# usage: run_suite.sh [extra pytest args]   (uses xdist when available for speed)
+# Run the repository's baseline suite (guard off) on a scratch worktree of /repo's HEAD and compare
+# with BASELINE.json stable_pass.  usage: run_suite.sh [extra pytest args]  (e.g. -n 8)
 OUT=${SUITE_OUT:-/tmp/suite.junit.xml}
-cd /repo && env -u NIPYPE_PYDRA_VERIF /venv/bin/python -m pytest -ra -q -p no:cacheprovider --timeout=900 --continue-on-collection-errors --junitxml=$OUT "$@" >/tmp/suite.log 2>&1
+WT=${SUITE_WT:-/tmp/suite_wt}
+git -C /repo worktree remove --force $WT 2>/dev/null
+rm -rf $WT
+git -C /repo worktree add -q --detach $WT HEAD || exit 2
+cp /venv/lib/python3.12/site-packages/pydra/utils/_version.py $WT/pydra/utils/_version.py 2>/dev/null
+cp /repo/pydra/engine/tests/data_tests/test.nii.gz $WT/pydra/engine/tests/data_tests/ 2>/dev/null
+echo "suite on $(git -C $WT rev-parse --short HEAD)"
+cd $WT && env -u NIPYPE_PYDRA_VERIF PYTHONPATH=$WT /venv/bin/python -m pytest -ra -q -p no:cacheprovider --timeout=900 --continue-on-collection-errors --junitxml=$OUT "$@" >${OUT}.log 2>&1
 /venv/bin/python - "$OUT" <<'P'
 import json, sys, xml.etree.ElementTree as ET
 base = json.load(open('/root/.vp/BASELINE.json'))
@@ -19,3 +26,6 @@ for n in missing[:40]:
     print('  NOT PASSING:', n, got.get(n))
 sys.exit(1 if missing else 0)
 P
+rc=$?
+git -C /repo worktree remove --force $WT 2>/dev/null
+exit $rc
